@@ -2059,6 +2059,9 @@ def justify(facts, graph, rules, flow):
     return out
 
 
+PREFERRED_RELAX = []        # set by props/c11.py from the open known findings
+
+
 def _relax(facts, rules, site, matcher):
     """Smallest set of rule fields that has to be ignored for some rule to match the statement; the name of the rule
     is given up last (a rule with another name is another rule)."""
@@ -2069,6 +2072,9 @@ def _relax(facts, rules, site, matcher):
         fields = ["name~", "line_num", "unit_name", "lang", "operation"]
     else:
         fields = ["line_num", "unit_name", "lang", "operation", "name~"]
+    # among explanations of the same size, one made of relaxations that are open findings comes first (a tie must not
+    # be decided in favour of a field whose defect was repaired)
+    fields = [f for f in fields if f in PREFERRED_RELAX] + [f for f in fields if f not in PREFERRED_RELAX]
     for with_name in (False, True):
         for n in range(0 if with_name else 1, len(fields) + 1):
             for combo in itertools.combinations(fields, n):
